@@ -199,7 +199,31 @@ fn loop_traces(ctx: &mut Ctx) {
         let mut has_code = false;
         let mut shape = String::new();
         // first programs: the plain single-loop family for every n (so every count is covered)
-        let nodes = if k < 3 * (nmax as u64 + 2) {
+        let nodes = if k >= 3 * (nmax as u64 + 2) && k < 3 * (nmax as u64 + 2) + 30 {
+            // long single loops (20..100 iterations), one kind each
+            let j = k - 3 * (nmax as u64 + 2);
+            let n = 20 + (j as i32 / 3) * 9;
+            match j % 3 {
+                0 => {
+                    shape.push_str("E)");
+                    // the body grows with j: up to ~130 top-level elements
+                    let mut body = vec![Node::Probe(1)];
+                    for q in 0..(j as usize * 5) {
+                        body.push(Node::Neutral(q % 5));
+                    }
+                    body.push(Node::Probe(2));
+                    vec![Node::ExecLoop(n.min(25), body)]
+                }
+                1 => {
+                    shape.push_str("E)E)");
+                    vec![Node::ExecLoop(n / 4, vec![Node::Probe(1), Node::ExecLoop(5, vec![Node::Probe(2)])])]
+                }
+                _ => {
+                    shape.push_str("V)");
+                    vec![Node::VecLoop((0..n).map(|x| 1000 + x).collect(), 1, vec![Node::Neutral(j as usize)])]
+                }
+            }
+        } else if k < 3 * (nmax as u64 + 2) {
             let n = (k / 3) as i32 - 1; // -1 .. nmax
             match k % 3 {
                 0 => {
@@ -328,9 +352,15 @@ fn single_steps(ctx: &mut Ctx) {
         ctx.rec.case_marker(k, "single step");
         if k % 5 == 4 {
             // list unpacking: first element must end up on top
-            let l = match gen::item(&mut r, 2, &gen::ItemOpts::all(Vals::Small), &names) {
-                i @ SItem::Instr(_) => SItem::List(vec![i]),
-                o => o,
+            let l = if k % 25 == 24 {
+                // long lists: every element must still be executed, in order
+                let n = *r.pick(&[17usize, 63, 64, 65, 127, 128, 129, 130, 255, 256, 257, 511, 513, 1025]);
+                SItem::List((0..n).map(|j| if j % 7 == 3 { SItem::Bool(true) } else { SItem::Int(j as i32) }).collect())
+            } else {
+                match gen::item(&mut r, 2, &gen::ItemOpts::all(Vals::Small), &names) {
+                    i @ SItem::Instr(_) => SItem::List(vec![i]),
+                    o => o,
+                }
             };
             st.exec_stack.push(l.to_item());
             let ev = judged_exec_step("C06", &mut st, &mut is, &cache, &mut ctx.rec, judge, "list/literal step");
